@@ -37,8 +37,18 @@ COMPONENTS_STUB = [
 ]
 
 
+THOROUGH_FACTOR = 6
+THOROUGH_BUDGET = 3000
+
+
 class CaseTimeout(BaseException):      # BaseException: the library's blanket 'except Exception' must not swallow it
     pass
+
+
+def _pythonpath():
+    """PYTHONPATH for child interpreters: the scratch tree named by VERIF_REPO (if any) comes first, as in bin/check."""
+    r = os.environ.get("VERIF_REPO")
+    return (r + os.pathsep + VERIF) if r else VERIF
 
 
 def run_seed(verif_seed, prop, i):
@@ -60,6 +70,7 @@ def exec_case(check, case, timeout):
     t0 = time.time()
     from . import common as _common
     _common.TIMEOUT_FIRED = False
+    leaked = reset_library_state()
     try:
         res = check.run_case(case)
     except CaseTimeout:
@@ -81,9 +92,191 @@ def exec_case(check, case, timeout):
             except CaseTimeout:
                 res = {"outcome": "skip", "reason": "wall-timeout"}
     res["wall"] = time.time() - t0
+    if leaked:
+        res.setdefault("counters", {})
+        for name in leaked:
+            if "scattered_map_core" not in name:     # SMGen's process globals are known state (DESIGN.md S7)
+                res["counters"]["library-state-left-by-previous-case:" + name] = 1
     if _common.TIMEOUT_FIRED:
         res["timing"] = True        # an inner wall-clock guard fired: the outcome is load dependent
     return res
+
+
+def _run_one_index(check, prop, verif_seed, tier, i, timeout):
+    """gen_case + exec_case (+ the fault-free re-run of a faulted violation) for one run index."""
+    rs = run_seed(verif_seed, prop, i)
+    try:
+        case = check.gen_case(rs, tier)
+    except Exception as e:
+        return (i, None, {"outcome": "harness-error", "reason": "gen_case %s: %s" % (type(e).__name__, e),
+                          "trace": traceback.format_exc()[-3000:], "wall": 0})
+    if case is None:
+        return (i, None, {"outcome": "skip", "reason": "generator-none", "wall": 0})
+    case["run_index"] = i
+    case["run_seed"] = rs
+    faulthandler.dump_traceback_later(timeout * 2 + 30, exit=False)     # a hang inside C code shows its Python stack
+    try:
+        res = exec_case(check, case, timeout)
+    finally:
+        faulthandler.cancel_dump_traceback_later()
+    if res.get("reduced_case") is not None:
+        # a fault sweep found its violation at one placement: continue with the plain single-fault case
+        rc = res.pop("reduced_case")
+        rc["run_index"], rc["run_seed"] = i, rs
+        case = rc
+    if res["outcome"] == "violation" and case.get("faults"):
+        # does the violation need the injected faults?  If it persists fault-free it is reported as such.
+        c2 = dict(case)
+        c2["faults"] = []
+        r2 = exec_case(check, c2, timeout)
+        if r2["outcome"] == "violation":
+            r2["faults"] = res.get("faults")
+            case, res = c2, r2
+        elif not res["signature"].endswith("/after-fault"):
+            res["signature"] += "/after-fault"
+    keep_case = res["outcome"] in ("violation", "harness-error") or i < 3
+    return (i, case if keep_case else None, res)
+
+
+_PRISTINE = None
+
+
+def _lib_containers():
+    """(owner, name, value) for every module-level and class-level dict/list/set of the sweetpea package, plus every
+    lru_cache-wrapped function: the places where the library (or a change to it) can keep state between calls."""
+    import types
+    out = []
+    caches = []
+    for mname, mod in list(sys.modules.items()):
+        if not (mname == "sweetpea" or mname.startswith("sweetpea.")) or mod is None:
+            continue
+        for k, v in list(vars(mod).items()):
+            if k.startswith("__"):
+                continue
+            if isinstance(v, (dict, list, set)) and not isinstance(v, type):
+                out.append((mod, k, v))
+            elif hasattr(v, "cache_clear") and callable(getattr(v, "cache_clear")):
+                caches.append(v)
+            elif isinstance(v, type) and getattr(v, "__module__", "") == mname:
+                for ck, cv in list(vars(v).items()):
+                    if ck.startswith("__"):
+                        continue
+                    if isinstance(cv, (dict, list, set)):
+                        out.append((v, ck, cv))
+                    elif hasattr(cv, "cache_clear") and callable(getattr(cv, "cache_clear")):
+                        caches.append(cv)
+    return out, caches
+
+
+def reset_library_state():
+    """Called before every case: puts every module-/class-level container of sweetpea back to what it held when the worker
+    started and clears function caches, so that a run can neither see the leftovers of an earlier run in the same worker
+    nor depend on which worker executes it.  (Forking one process per case would do the same by brute force, but a fork
+    costs 0.2-0.9 s in this sandbox.)  Returns the names that had changed (a probe: state the library keeps between calls)."""
+    global _PRISTINE
+    import copy
+    conts, caches = _lib_containers()
+    changed = []
+    if _PRISTINE is None:
+        _PRISTINE = {}
+        for owner, k, v in conts:
+            try:
+                _PRISTINE[(id(owner), k)] = copy.deepcopy(v)
+            except Exception:
+                pass
+        return changed
+    for owner, k, v in conts:
+        key = (id(owner), k)
+        if key not in _PRISTINE:
+            # a container that did not exist when the worker started (created lazily): empty it
+            try:
+                if v:
+                    changed.append("%s.%s" % (getattr(owner, "__name__", owner), k))
+                    v.clear()
+            except Exception:
+                pass
+            continue
+        try:
+            if v != _PRISTINE[key]:
+                changed.append("%s.%s" % (getattr(owner, "__name__", owner), k))
+                fresh = copy.deepcopy(_PRISTINE[key])
+                if isinstance(v, dict):
+                    v.clear()
+                    v.update(fresh)
+                elif isinstance(v, list):
+                    v[:] = fresh
+                else:
+                    v.clear()
+                    v.update(fresh)
+        except Exception:
+            pass
+    for c in caches:
+        try:
+            c.cache_clear()
+        except Exception:
+            pass
+    return changed
+
+
+def isolated(fn, hard_timeout):
+    """Runs fn() in a forked child and returns its (picklable) result.  One case = one process image: whatever the
+    library keeps in module-level state (SMGen's globals, caches a change might add) can neither leak from one run into
+    the next nor make a run depend on which worker happened to execute it; histories inside one case still share it."""
+    import pickle
+    import select
+    r, w = os.pipe()
+    pid = os.fork()
+    if pid == 0:
+        code = 0
+        try:
+            os.close(r)
+            try:
+                out = ("ok", fn())
+            except BaseException as e:   # noqa
+                out = ("exc", "%s: %s\n%s" % (type(e).__name__, e, traceback.format_exc()[-3000:]))
+            data = pickle.dumps(out)
+            with os.fdopen(w, "wb") as f:
+                f.write(data)
+        except BaseException:   # noqa
+            code = 3
+        finally:
+            os._exit(code)
+    os.close(w)
+    chunks = []
+    deadline = time.time() + hard_timeout
+    timed_out = False
+    with os.fdopen(r, "rb") as f:
+        while True:
+            left = deadline - time.time()
+            if left <= 0:
+                timed_out = True
+                break
+            ready, _, _ = select.select([f], [], [], min(left, 5))
+            if not ready:
+                continue
+            b = os.read(f.fileno(), 1 << 20)
+            if not b:
+                break
+            chunks.append(b)
+    if timed_out:
+        try:
+            os.kill(pid, signal.SIGKILL)
+        except OSError:
+            pass
+    _, status = os.waitpid(pid, 0)
+    if timed_out:
+        return ("timeout", None)
+    if not chunks:
+        return ("died", "child exited with status %d without a result" % status)
+    try:
+        return pickle.loads(b"".join(chunks))
+    except Exception as e:
+        return ("died", "unreadable result: %r" % (e,))
+
+
+def exec_case_isolated(check, case, timeout):
+    """exec_case from a clean library state (see reset_library_state)."""
+    return exec_case(check, case, timeout)
 
 
 def _worker(args):
@@ -96,35 +289,7 @@ def _worker(args):
     check = load_check(prop)
     out = []
     for i in indices:
-        rs = run_seed(verif_seed, prop, i)
-        try:
-            case = check.gen_case(rs, tier)
-        except Exception as e:
-            out.append((i, None, {"outcome": "harness-error", "reason": "gen_case %s: %s" % (type(e).__name__, e),
-                                  "trace": traceback.format_exc()[-3000:], "wall": 0}))
-            continue
-        if case is None:
-            out.append((i, None, {"outcome": "skip", "reason": "generator-none", "wall": 0}))
-            continue
-        case["run_index"] = i
-        case["run_seed"] = rs
-        faulthandler.dump_traceback_later(timeout * 2 + 30, exit=False)     # a hang inside C code shows its Python stack
-        try:
-            res = exec_case(check, case, timeout)
-        finally:
-            faulthandler.cancel_dump_traceback_later()
-        if res["outcome"] == "violation" and case.get("faults"):
-            # does the violation need the injected faults?  If it persists fault-free it is reported as such.
-            c2 = dict(case)
-            c2["faults"] = []
-            r2 = exec_case(check, c2, timeout)
-            if r2["outcome"] == "violation":
-                r2["faults"] = res.get("faults")
-                case, res = c2, r2
-            elif not res["signature"].endswith("/after-fault"):
-                res["signature"] += "/after-fault"
-        keep_case = res["outcome"] in ("violation", "harness-error") or i < 3
-        out.append((i, case if keep_case else None, res))
+        out.append(_run_one_index(check, prop, verif_seed, tier, i, timeout))
     return out
 
 
@@ -176,7 +341,7 @@ def minimise(check, case, signature, budget_runs=150, budget_s=45, timeout=20):
             if runs >= budget_runs or time.time() - t0 > budget_s:
                 break
             runs += 1
-            res = exec_case(check, cand, timeout)
+            res = exec_case_isolated(check, cand, timeout)
             if res["outcome"] == "violation" and res["signature"] == signature:
                 cand["minimised_from"] = case.get("run_index")
                 cur = cand
@@ -235,7 +400,7 @@ def digests_for(prop, verif_seed, tier, n, timeout):
             continue
         case["run_index"] = i
         case["run_seed"] = rs
-        res = exec_case(check, case, timeout)
+        res = exec_case_isolated(check, case, timeout)
         out[i] = "wall-timeout" if res.get("timing") else "%s:%s" % (res["outcome"], res.get("digest") or res.get("reason"))
     return out
 
@@ -269,8 +434,13 @@ def main(argv=None):
     # quick: the fixed run-index range [0, RUNS) decides what is explored, so that the same VERIF_SEED explores the same
     # cases on every machine (the budget is only a safety cap, sized several times the expected wall time);
     # thorough: as many runs as fit in the budget.
-    budget = args.budget or getattr(check, "BUDGET", {"quick": 300, "thorough": 900})[tier]
-    max_runs = args.runs or getattr(check, "RUNS", {"quick": 4000, "thorough": 200000})[tier]
+    # Both tiers explore a FIXED run-index range, so that what a VERIF_SEED explores does not depend on the machine:
+    # quick = [0, RUNS.quick); thorough = [0, THOROUGH_FACTOR x RUNS.quick) generated with the wider thorough-tier bounds.
+    # The budget is only a safety cap (evidence says whether the planned range was completed).
+    runs_tbl = getattr(check, "RUNS", {"quick": 4000})
+    planned = runs_tbl["quick"] if tier == "quick" else getattr(check, "THOROUGH_RUNS", THOROUGH_FACTOR * runs_tbl["quick"])
+    budget = args.budget or (getattr(check, "BUDGET", {"quick": 300})["quick"] if tier == "quick" else THOROUGH_BUDGET)
+    max_runs = args.runs or planned
     chunk = getattr(check, "CHUNK", 8)
     findings = load_findings()
 
@@ -286,7 +456,7 @@ def main(argv=None):
             continue
         with open(wpath) as fh:
             doc = json.load(fh)
-        res = exec_case(check, doc["case"], 120)
+        res = exec_case_isolated(check, doc["case"], 120)
         fails = res["outcome"] == "violation" and finding_matches(f, res.get("signature"))
         if f["status"] == "known":
             if fails:
@@ -389,13 +559,13 @@ def main(argv=None):
         case = kept_cases[i]
         res = results[i]
         mcase, mruns = minimise(check, case, sig)
-        mres = exec_case(check, mcase, 120) if mruns else res
+        mres = exec_case_isolated(check, mcase, 120) if mruns else res
         if not (mres["outcome"] == "violation" and mres.get("signature") == sig):
-            mcase, mres = case, exec_case(check, case, 120)
+            mcase, mres = case, exec_case_isolated(check, case, 120)
         path = write_replay(prop, verif_seed, mcase, mres, mruns > 0, i)
         # replay in a fresh interpreter must reproduce exactly
         rc = subprocess.run([sys.executable, "-m", "sim.runner", prop, "--replay", path], cwd=VERIF,
-                            env=dict(os.environ, PYTHONHASHSEED="12345", PYTHONPATH=VERIF), capture_output=True, text=True)
+                            env=dict(os.environ, PYTHONHASHSEED="12345", PYTHONPATH=_pythonpath()), capture_output=True, text=True)
         out_lines.append("VIOLATION property=%s replay=%s" % (prop, path))
         out_lines.append("  signature: %s  (%d runs; first run index %d; minimised in %d re-runs; fresh replay rc=%d)" % (sig, len(idxs), i, mruns, rc.returncode))
         out_lines.append("  " + str(mres.get("detail"))[:1200])
@@ -409,7 +579,7 @@ def main(argv=None):
         n = getattr(check, "SELFTEST_RUNS", 12)
         try:
             p = subprocess.run([sys.executable, "-m", "sim.runner", prop, "--tier", tier, "--digests", str(n)], cwd=VERIF,
-                               env=dict(os.environ, PYTHONHASHSEED="12345", PYTHONPATH=VERIF, VERIF_SEED=verif_seed),
+                               env=dict(os.environ, PYTHONHASHSEED="12345", PYTHONPATH=_pythonpath(), VERIF_SEED=verif_seed),
                                capture_output=True, text=True, timeout=600)
             other = json.loads(p.stdout.strip().splitlines()[-1])
             mine = {}
@@ -472,6 +642,10 @@ def main(argv=None):
 
     print("%s tier=%s seed=%s runs=%d ok=%d skip=%d known=%d violations=%d harness_errors=%d distinct_nontrivial=%d wall=%.1fs" % (
         prop, tier, verif_seed, total, agg["ok"], agg["skip"], agg["known"], len(new_violations), len(harness_errors), len(distinct), wall))
+    if os.environ.get("VERIF_COUNTERS"):
+        print("faults fired:", json.dumps(fault_fired, sort_keys=True))
+        print("counters:", json.dumps({k: v for k, v in counters.items() if not k.startswith("fault@")}, sort_keys=True))
+        print("skips:", json.dumps(skip_hist, sort_keys=True))
     for l in known_lines:
         print(l)
     for fid in stale:
